@@ -2,6 +2,7 @@ package props
 
 import (
 	"os"
+	"regexp"
 	"sort"
 	"strings"
 
@@ -109,6 +110,19 @@ func (s c04Sig) def(form string) string {
 		ps := append([]string{"self"}, s.params(true)...)
 		rs := append([]string{"self is o"}, s.retList()...)
 		return "class C:\n    def f(" + strings.Join(ps, ", ") + "): return " + c04TupleSrc(rs) + "\no = C()\n"
+	}
+	switch form {
+	case "locals":
+		// the body has local variables named like a keyword the caller may pass (z): they are not
+		// parameters, a keyword z still goes to **k or is an error
+		return "def f(" + strings.Join(s.params(true), ", ") + "):\n    z = 99\n    y = z\n    return " + c04TupleSrc(s.retList()) + "\n"
+	case "starname":
+		// the * or ** parameter itself is called z: it cannot be given by keyword either
+		d := "def f(" + strings.Join(s.params(true), ", ") + "): return " + c04TupleSrc(s.retList()) + "\n"
+		if strings.Contains(d, "*a") {
+			return regexp.MustCompile(`\ba\b`).ReplaceAllString(d, "z")
+		}
+		return regexp.MustCompile(`\bk\b`).ReplaceAllString(d, "z")
 	}
 	if form == "closure" {
 		// every parameter is read from a nested function: the arguments have to reach the cells
@@ -718,6 +732,14 @@ func c04Run(rc *core.RunCtx) {
 	if rc.Expired() || rc.Done() {
 		return
 	}
+	c.pyPart("locals", sigs, calls2, names, false)
+	if rc.Expired() || rc.Done() {
+		return
+	}
+	c.pyPart("starname", sigs, calls2, names, false)
+	if rc.Expired() || rc.Done() {
+		return
+	}
 	c.pyReuse(sigs, calls2, names)
 	if rc.Expired() || rc.Done() {
 		return
@@ -1301,7 +1323,7 @@ func init() {
 			"x all call shapes `f(11.., name=2x.., *(31..), **{'name': 4x..})` with 0-3 explicit positionals, every subset of the names {p1,p2,k1,k2,z} as keywords, no *seq or a tuple of length 0-2, no **map or a dict over every subset of the names, keywords written before or after the *seq (29172 shapes; " +
 			"quick: <=2 positionals, at most 3 names in keywords+map together, keywords before *seq: 2424 shapes); every argument and default is a distinct integer so that a misdelivered value is visible; " +
 			"each pair is a two-statement program (definition returning the tuple of all its parameters; call) whose result or exception type is compared with the binding algorithm of the language reference written independently in Go; shapes without *seq/**map also through py.Call on the function object. " +
-			"The same signatures as lambda and as method of a class called through an instance (the tuple starts with `self is o`) against the shapes with <=2 positionals and <=3 names (quick <=2); 15 unusual */** operands (list, range, generator, iterator, set; int/None as * and **; list as **; dict() results) against all signatures. " +
+			"The same signatures with every parameter read from a nested function, with body locals named like a passable keyword (z), and with the * / ** parameter itself named z; as lambda and as method of a class called through an instance (the tuple starts with `self is o`) against the shapes with <=2 positionals and <=3 names (quick <=2); 15 unusual */** operands (list, range, generator, iterator, set; int/None as * and **; list as **; dict() results) against all signatures. " +
 			"Go callables: the four Go function signatures of py.NewMethod x {function of a registered module, method of a Go-defined type through an instance, through the class with and without the instance as first argument} x the same call shapes, from source and (without *seq/**map) through py.GetAttrString+py.Call; the callable records receiver, args and kwargs; expected exact delivery or TypeError with the callable not invoked. " +
 			"py.ParseTupleAndKeywords for 6 formats (required, optional `|`, keyword-only `$`) x 0-4 positionals x all subsets of {a,b,c,d,z} and py.UnpackTuple for 6 (min,max) ranges x 0-4 positionals x {nil, empty, non-empty kwargs} against the rules of PyArg_ParseTupleAndKeywords / PyArg_UnpackTuple. Every case is non-trivial; distinct by (part, form, signature, call shape, access path).",
 		Run: c04Run,
